@@ -67,10 +67,10 @@ func checkC16(c *Ctx) error {
 		add("Step", "step/done", n)
 		add("StepOps", "stepops/done", n)
 	}
-	c.Bounds["universe"] = "membership/union/intersects/complement/equal: all code points 0..0x10FFFF; Len: elements 0..15; String: elements 0..5"
+	c.Bounds["universe"] = "membership/union/intersects/complement/equal: all code points and the end symbol, 0..0x110000; Len: elements 0..7; String: elements 0..5"
 	c.Bounds["history_length"] = map[string]int{"single_set_ops_max_insertions": k1, "pair_ops_max_insertions_total": kpair + 2}
 	c.Bounds["inductive_step"] = "one AddRange (and every read-only operation) from an ARBITRARY valid list of <= 3 (quick) / 4 (thorough) intervals: covers histories of any length whose sets have that many intervals"
-	c.Bounds["outside"] = "longer histories; cardinality of sets with elements above 15; arguments with begin > end, negative or above 0x10FFFF (precondition)"
+	c.Bounds["outside"] = "longer histories; cardinality of sets with elements above 7; arguments with begin > end, negative or above 0x110000 (precondition)"
 	c.Assumptions = append(c.Assumptions, "A-SSA: go/ssa (x/tools v0.50.0) translates set/set.go faithfully", "A-Z3: z3 4.8.12 answers are correct",
 		"precondition: AddRange(begin,end) with 0 <= begin <= end; Complement(limit) with every element <= limit")
 	cfg := symx.DefaultConfig()
